@@ -477,3 +477,62 @@ def to_native(T, limit=INTMAX // 4):
     out['acts'] = acts
     out['optstr'] = ' '.join('%s=%s' % kv for kv in sorted(T['opts'].items()))
     return out
+
+
+# ----------------------------------------------------------------------------------------
+#  encodings for counts whose numbers exceed 32 bits (shipping precisions)
+# ----------------------------------------------------------------------------------------
+def limbs(n):
+    "signed little-endian base-10^4 limbs (spec/BigNum.tla)"
+    n = int(n)
+    neg = n < 0
+    n = abs(n)
+    mag = []
+    while n:
+        mag.append(n % 10000)
+        n //= 10000
+    return dict(neg=neg and bool(mag), mag=mag)
+
+
+def _map_numbers(T, f):
+    out = {k: v for k, v in T.items() if k not in ('acts', '_E', 'opts', 'blt', 'omega')}
+    out['lowprec'] = [(-1 if x is None else x) for x in (T.get('lowprec') or [])]
+    out['optstr'] = ' '.join('%s=%s' % kv for kv in sorted(T['opts'].items()))
+    acts = []
+    for a in T['acts']:
+        o = dict(a)
+        for k in _NUMKEYS:
+            o[k] = f(a[k])
+        for k in _VECKEYS:
+            o[k] = [f(x) for x in a[k]]
+        o['bal'] = [dict(ix=b['ix'], w=f(b['w'])) for b in a['bal']]
+        o['iters'] = []
+        del o['msg']
+        acts.append(o)
+    out['acts'] = acts
+    return out
+
+
+def to_big(T):
+    "limb-encoded copy for spec/BigProps.tla (fixed / guarded arithmetic of any precision); None for rational"
+    if 'nc' not in T or T['kind'] == 'rational':
+        return None
+    out = _map_numbers(T, limbs)
+    out['Sb'] = limbs(T['S'])
+    out['nSb'] = limbs(T['S'] * T['n'])
+    out['gepsb'] = limbs(T['geps'])
+    out['omegab'] = limbs(T.get('omega', 0) or 0)
+    out['S'] = 0
+    return out
+
+
+def to_shadow(T):
+    "every number replaced by its sign: enough for the clauses of C01 / C09 / C18 that speak about statuses only"
+    if 'nc' not in T:
+        return None
+    sgn = lambda x: (x > 0) - (x < 0)
+    out = _map_numbers(T, sgn)
+    out['S'] = 1
+    out['geps'] = 1
+    out['omega'] = 0
+    return out
